@@ -47,6 +47,40 @@ structure Mesh where
   applyToSidecars : Bool := false           -- serviceEntryVisibility.applyToSidecars
 deriving Repr, Inhabited
 
+/-! ### `serviceentry_visibility.go`: the visibility MeshConfig.serviceEntryVisibility resolves for a namespace -/
+
+/-- one matcher: `none` = unset matcher or a namespace selector without a label selector (never
+    matches), `some sel` = matchLabels (empty: matches every namespace) -/
+abbrev SevRule := Option (List (String × String))
+
+structure SevPolicy where
+  vis : SEVis
+  rules : List SevRule
+deriving Repr, Inhabited
+
+/-- the compiled `ServiceEntryVisibilityMatcher` (UNSPECIFIED already read as Public) -/
+structure Sev where
+  dflt : SEVis
+  policies : List SevPolicy
+deriving Repr, Inhabited
+
+/-- `visibilityRule` match: every matchLabels pair is a label of the namespace -/
+def sevRuleMatches (nsl : List (String × String)) : SevRule → Bool
+  | none => false
+  | some sel => sel.all fun kv => nsl.any fun kv' => kv'.1 == kv.1 && kv'.2 == kv.2
+
+/-- `visibilityPolicy.matches`: all rules match (an empty rule list is a catch-all) -/
+def sevPolicyMatches (nsl : List (String × String)) (p : SevPolicy) : Bool := p.rules.all (sevRuleMatches nsl)
+
+/-- `ServiceEntryVisibilityMatcher.VisibilityFor` (nil matcher / unset config: Public) -/
+def visibilityFor (sev : Option Sev) (nsl : List (String × String)) : SEVis :=
+  match sev with
+  | none => .pub
+  | some s =>
+    match s.policies.find? (sevPolicyMatches nsl) with
+    | some p => p.vis
+    | none => s.dflt
+
 /-- `initDefaultExportMaps`: nil -> {*}, else the listed entries. -/
 def defaultExport : Option (List String) → List String
   | none => ["*"]
